@@ -156,6 +156,24 @@ func oneToOnePair(c *vk.Ctx, a, b int, typ string, ids map[string]string) {
 			c.Violation("one-to-one shared key asymmetric", fmt.Sprintf("GenerateSharedKey(%d,%d) != GenerateSharedKey(%d,%d)", a, b, b, a), rc)
 		}
 	}
+	// another identity must not lead to the same key: the peer's public key with the sign bit of x flipped is a
+	// different Ed25519 identity that maps to the same Curve25519 point ("no other key pair derives them")
+	if rawB, err := skb.GetPublic().Raw(); err == nil && len(rawB) == 32 && sharedRaw != nil {
+		twin := append([]byte{}, rawB...)
+		twin[31] ^= 0x80
+		if tp, err := crypto.UnmarshalEd25519PublicKey(twin); err == nil {
+			st, e := crypto.GenerateSharedKey(ska, tp, crypto.AnysyncOneToOneSpacePath)
+			c.Count("executions", 1)
+			c.Count("evaluations", 1)
+			if e == nil {
+				rt, _ := st.Raw()
+				c.Distinct("distinct", fmt.Sprintf("o2o|twin-identity|same=%v", bytes.Equal(rt, sharedRaw)))
+				if bytes.Equal(rt, sharedRaw) {
+					c.Violation("one-to-one shared key derived by another identity pair", fmt.Sprintf("GenerateSharedKey(%d, sign-flipped twin of %d) equals GenerateSharedKey(%d,%d)", a, b, a, b), rc)
+				}
+			}
+		}
+	}
 	// both parties' ACL views derive the same keys (each over the root it built, and over the other's root)
 	ka, erra, pna, wa := aclView(ska, P.AclRaw, P.AclId)
 	kb, errb, pnb, wb := aclView(skb, Q.AclRaw, Q.AclId)
